@@ -312,19 +312,15 @@ Fixpoint match_bwd {X} (test : N -> X -> bool) (keep : N -> bool) (s : list glyp
     end
   end.
 
-(* ChainedSeqContext3 input / lookahead loop (test the current glyph, then advance):
-     for _, cov := range covs { if p+gn-1 >= lim || !cov[seq[p]] { fail }; matchPos += p; gn--; p++; skip } *)
-Fixpoint match3 (keep : N -> bool) (s : list glyph) (lim p : nat) (covs : list covset)
-         (acc : list nat) : outcome (option (nat * list nat)) :=
-  match covs with
-  | [] => Ok (Some (p, acc))
-  | c :: rest =>
-    let gn := length rest in
-    if lim <=? p + gn then Ok None else
-    g <- oget s p ;;
-    if set_mem c (g_gid g) then
-      p2 <- skip_fwd keep s (S p) (lim - gn - S p) ;;
-      match3 keep s lim p2 rest (acc ++ [p])
+(* ChainedSeqContext3 input loop (repaired): the first coverage table is
+   tested on seq[a] itself, the others like the input loop of format 1 *)
+Definition chain3_input (keep : N -> bool) (s : list glyph) (a b : nat) (gid : N) (input : list covset)
+  : outcome (option (nat * list nat)) :=
+  match input with
+  | [] => Ok (Some (a, []))
+  | c0 :: rest =>
+    if b <=? a + length rest then Ok None
+    else if set_mem c0 gid then match_fwd (fun x c => set_mem c x) keep s b a rest [a]
     else Ok None
   end.
 
@@ -628,16 +624,18 @@ Definition apply_sub (keep : N -> bool) (sub : subtable) (s : list glyph) (k : s
       end
     end
   | Chain3 back input look acts =>
+    (* repaired (fixes/C07-chained3-duplicate-pos.diff, fixes/C06-chained3-ignored-glyphs.diff):
+       the loops have the shape of ChainedSeqContext1 *)
     okb <- match_bwd (fun x c => set_mem c x) keep s (S a) back ;;
     if negb okb then nomatch s k else
-    m <- match3 keep s b a input [] ;;
+    m <- chain3_input keep s a b gid input ;;
     match m with
     | None => nomatch s k
-    | Some (next, mpos) =>
-      ml <- match3 keep s (length s) next look [] ;;
+    | Some (p, mpos) =>
+      ml <- match_fwd (fun x c => set_mem c x) keep s (length s) p look [] ;;
       match ml with
       | None => nomatch s k
-      | Some _ => push_frame s k mpos acts next
+      | Some _ => e <- skip_fwd keep s (S p) (b - S p) ;; push_frame s k mpos acts e
       end
     end
   | Gpos1_1 cov adj =>
